@@ -327,7 +327,12 @@ def session_history(ctx, i):
         if r.random() < 0.4:
             crash = int(r.integers(1, 40))
         hist.append({"subjects": subs, "crash_at": crash})
-        rc = in_child(lambda: session(path, subs, crash_at=crash), err)
+        if i % 7 == 5:
+            # the output file is named relative to the working directory, and every session starts in that directory
+            feats["relative_path"] = True
+            rc = in_child(lambda: (os.chdir(d), session(os.path.basename(path), subs, crash_at=crash)), err)
+        else:
+            rc = in_child(lambda: session(path, subs, crash_at=crash), err)
         ctx.count("evaluations")
         if rc == 3:
             ctx.viol("session_raised", dict(det, history=hist, error=open(err).read()[-1500:]), features=dict(feats, kind="session_raised"))
